@@ -165,18 +165,19 @@ def selftest(wd, lines):
         if r["ev"] == "fattr" and len(r["hold_times"]) >= 2 and r["hold_times"][0] != r["hold_times"][1]:
             m = clone(); m[k]["hold_times"] = m[k]["hold_times"][1:] + m[k]["hold_times"][:1]
             muts.append(("fulfil-holds-shifted", m)); break
-    rejected = 0
-    names = []
-    for name, m in muts:
+    def one(nm):
+        name, m = nm
         p = os.path.join(wd, "selftest-%s.ndjson" % name)
         with open(p, "w") as f:
             for r in m:
                 f.write(json.dumps(r) + "\n")
-        _, fails = vlib.validate_trace(PID, "OnionTrace", "OnionTrace.cfg", p, max_failures=1, tag="st")
-        if fails:
-            rejected += 1
-        else:
-            names.append(name)
+        _, fails = vlib.validate_trace(PID, "OnionTrace", "OnionTrace.cfg", p, max_failures=1,
+                                       tag="st-" + name)
+        return name, bool(fails)
+    with ThreadPoolExecutor(max_workers=6) as ex:
+        res = list(ex.map(one, muts))
+    rejected = sum(1 for _, ok in res if ok)
+    names = [n for n, ok in res if not ok]
     if rejected != len(muts) or len(muts) < 8:
         raise vlib.ToolError("binding self-test: %d of %d corrupted traces rejected (accepted: %s)"
                              % (rejected, len(muts), names))
@@ -200,31 +201,28 @@ def run(tier, seed):
                              % (cfg, cc, probe))
 
     # ---- 1. design check + behaviour generation
-    # -coverage roughly doubles TLC's run time here: the quick tier derives action coverage from the
+    # -coverage roughly doubles TLC's run time here: action coverage is derived from the
     # printed scripts instead (a script is printed only in a terminal state, reachable only through
     # the actions it names)
-    r = vlib.tlc_mc(PID, "OnionMC", cfg, workers=12, timeout=2400 if thorough else 600, coverage=thorough)
+    r = vlib.tlc_mc(PID, "OnionMC", cfg, workers=12, timeout=3000 if thorough else 600, coverage=False)
     if r["violated"]:
         raise vlib.ToolError("design model violates %s in %s (spec needs correction)" % (r["violated"], cfg))
     scripts = vlib.tlc_printed(r["out"], "SCRIPT")
-    if thorough:
-        vlib.require_coverage(r, ACTIONS, cfg)
-    else:
-        def cnt(pred):
-            return sum(1 for s in scripts if pred(s))
-        r["coverage"] = {
-            "MBuildSize": cnt(lambda s: s["op"]["kind"] == "deliver"),
-            "MBuildOps": cnt(lambda s: s["op"]["kind"] != "deliver"),
-            "MPeel": cnt(lambda s: s["n"] > 1),
-            "MCorrupt": cnt(lambda s: s["op"]["kind"] == "corrupt"),
-            "MFailAt": cnt(lambda s: s["op"]["kind"] == "fail"),
-            "MWrap": cnt(lambda s: s["op"]["kind"] == "fail" and s["op"]["at"] > 1),
-            "MAttribute": cnt(lambda s: s["op"]["kind"] == "fail"),
-            "MFulfill": cnt(lambda s: s["op"]["kind"] == "fulfill"),
-            "MFulfillWrap": cnt(lambda s: s["op"]["kind"] == "fulfill" and s["n"] > 1),
-            "MFulfillAttribute": cnt(lambda s: s["op"]["kind"] == "fulfill"),
-        }
-        vlib.require_coverage(r, ACTIONS, cfg + " (from scripts)")
+    def cnt(pred):
+        return sum(1 for s in scripts if pred(s))
+    r["coverage"] = {
+        "MBuildSize": cnt(lambda s: s["op"]["kind"] == "deliver"),
+        "MBuildOps": cnt(lambda s: s["op"]["kind"] != "deliver"),
+        "MPeel": cnt(lambda s: s["n"] > 1),
+        "MCorrupt": cnt(lambda s: s["op"]["kind"] == "corrupt"),
+        "MFailAt": cnt(lambda s: s["op"]["kind"] == "fail"),
+        "MWrap": cnt(lambda s: s["op"]["kind"] == "fail" and s["op"]["at"] > 1),
+        "MAttribute": cnt(lambda s: s["op"]["kind"] == "fail"),
+        "MFulfill": cnt(lambda s: s["op"]["kind"] == "fulfill"),
+        "MFulfillWrap": cnt(lambda s: s["op"]["kind"] == "fulfill" and s["n"] > 1),
+        "MFulfillAttribute": cnt(lambda s: s["op"]["kind"] == "fulfill"),
+    }
+    vlib.require_coverage(r, ACTIONS, cfg + " (from scripts)")
     vlib.log("[mc] %s: %d distinct states, %d generated, depth %d, %d scripts, %.0fs" %
              (cfg, r["distinct"], r["states"], r["depth"], len(scripts), r["wall_s"]))
     r.pop("out")
@@ -244,21 +242,12 @@ def run(tier, seed):
 
     # ---- 2. run the real code
     nrand = 40000 if thorough else 3000
-    reps = 2 if thorough else 1
+    reps = 1
     tpath = os.path.join(wd, "trace.ndjson")
     p = vlib.run_bin(bins["onion"], ["--scripts", spath, "--random", nrand, "--seed", seed, "--reps", reps,
                                      "--out", tpath], timeout=3000)
     summ = json.loads(p.stdout.strip().splitlines()[-1])
     vlib.log("[onion] %s" % summ)
-    nruns = summ["runs"] + summ["skipped"]
-    if summ["skipped"] * 20 > nruns:
-        raise vlib.ToolError("vacuity: %d of %d runs skipped by the driver" % (summ["skipped"], nruns))
-    for k in ("builds_ok", "builds_err", "corrupts", "fails", "fulfills"):
-        if summ[k] == 0:
-            raise vlib.ToolError("vacuity: engine counter %s is 0" % k)
-    if summ["peels"] < 5 * summ["builds_ok"] // 2:
-        raise vlib.ToolError("vacuity: packets hardly travel (%d peels for %d onions)" % (summ["peels"], summ["builds_ok"]))
-
     # ---- 3. trace validation (the oracle)
     total, fails = validate_parallel(wd, tpath, 6, 2400 if thorough else 600)
     # map run ids to scripts
@@ -281,33 +270,50 @@ def run(tier, seed):
                 "first_unmatched_event": fl["rec"], "position_in_run": fl["pos_in_run"],
                 "script": rs.get("script"), "script_index": rs.get("idx"), "rep": rs.get("rep"), "seed": seed,
                 "trace_of_run": fl["run_events"], "last_state": fl["last_state"],
-                "how_to_replay": "write `script` as one line into s.ndjson (for a random script: rerun the check "
-                                 "with the same seed); harness/target/debug/onion --scripts s.ndjson --seed <seed> "
-                                 "--out t.ndjson (the values of run index 0 are drawn from seed and script index; "
-                                 "the recorded trace_of_run is the exact execution); "
-                                 "cd spec && TRACE=t.ndjson tlc -config OnionTrace.cfg OnionTrace.tla"}, key=key):
+                "run_seed": rs.get("rseed"),
+                "how_to_replay": "write `script` as one line into s.ndjson; harness/target/debug/onion --scripts "
+                                 "s.ndjson --run-seed <run_seed> --out t.ndjson reproduces trace_of_run; "
+                                 "cd spec && TRACE=$PWD/../t.ndjson java -cp <tla2tools.jar:CommunityModules-deps.jar> "
+                                 "tlc2.TLC -config OnionTrace.cfg OnionTrace.tla"}, key=key):
             nviol += 1
+
+    # ---- 3b. vacuity guards on the driver (only meaningful when the implementation behaved: a broken
+    # implementation makes packets stop early, which is a violation above, not a driver problem)
+    if not fails:
+        nruns = summ["runs"] + summ["skipped"]
+        if summ["skipped"] * 20 > nruns:
+            raise vlib.ToolError("vacuity: %d of %d runs skipped by the driver" % (summ["skipped"], nruns))
+        for k in ("builds_ok", "builds_err", "corrupts", "fails", "fulfills"):
+            if summ[k] == 0:
+                raise vlib.ToolError("vacuity: engine counter %s is 0" % k)
+        if summ["peels"] < 5 * summ["builds_ok"] // 2:
+            raise vlib.ToolError("vacuity: packets hardly travel (%d peels for %d onions)"
+                                 % (summ["peels"], summ["builds_ok"]))
 
     # ---- 4. binding self-test on the head of the accepted trace
     st = None
     if not fails:
+        # a small accepted trace with a few runs of every kind
+        runs, cur = [], []
         with open(tpath) as f:
-            allines = f.read().splitlines()
-        # a slice that contains every kind of run: take runs until all event kinds were seen
-        need = {"corrupt", "attr", "fattr", "peel", "build"}
+            for ln in f:
+                if '"ev":"reset"' in ln:
+                    if cur:
+                        runs.append(cur)
+                    cur = []
+                    if len(runs) >= 12000:
+                        break
+                cur.append(ln.rstrip("\n"))
+        want = {"deliver": 4, "corrupt": 6, "fail": 8, "fulfill": 4}
         head = []
-        seen = set()
-        nattr = 0
-        for ln in allines:
-            r0 = json.loads(ln)
-            if r0["ev"] == "reset" and need <= seen and nattr >= 6 and len(head) > 2000:
-                break
-            head.append(ln)
-            seen.add(r0["ev"])
-            if r0["ev"] == "attr":
-                nattr += 1
-            if len(head) > 60000:
-                break
+        for run_lines in runs:
+            sc = json.loads(run_lines[0])["script"]
+            k = sc["op"]["kind"]
+            if want.get(k, 0) > 0 and sc["n"] >= 3 and sc["b"] == 0 and len(run_lines) > 3 \
+                    and (k != "corrupt" or sc["op"]["at"] < sc["n"]) \
+                    and (k != "fail" or (sc["op"]["at"] >= 2 and sc["op"]["code"] in ("node_temp", "node_perm"))):
+                want[k] -= 1
+                head += run_lines
         st = selftest(wd, head)
         vlib.log("[selftest] %s" % st)
 
